@@ -271,6 +271,7 @@ const char *type_to_string(Type type) {
         case TYPE_LIST_INT: return "list_int";
         case TYPE_LIST_STRING: return "list_string";
         case TYPE_HASHMAP: return "HashMap";
+        case TYPE_TUPLE: return "tuple";
         case TYPE_UNKNOWN: return "unknown";
         default: return "unknown";
     }
